@@ -3,6 +3,7 @@
 #include <rapidcheck.h>
 #include "vlib.h"
 #include "vkeys.h"
+#include <sys/wait.h>
 using namespace v;
 template <typename T> static rc::Gen<T> UNI(T lo, T hi) { return rc::gen::resize(100, rc::gen::inRange<T>(lo, hi)); }
 
@@ -100,7 +101,7 @@ static std::string run_seq(const std::vector<Op> &ops) {
 
 static const std::vector<Op> *CUR = nullptr;
 static std::string case_json(const std::vector<Op> &ops) {
-  std::string s = "{\"ops\":["; for (size_t i = 0; i < ops.size(); i++) s += (i ? "," : "") + std::string("[") + std::to_string(ops[i].k) + "," + std::to_string(ops[i].a) + "]";
+  std::string s = std::string("{\"provider\":\"") + jwt_get_crypto_ops() + "\",\"ops\":["; for (size_t i = 0; i < ops.size(); i++) s += (i ? "," : "") + std::string("[") + std::to_string(ops[i].k) + "," + std::to_string(ops[i].a) + "]";
   s += "],\"readable\":["; for (size_t i = 0; i < ops.size(); i++) s += (i ? "," : "") + jstr(std::string(ON[ops[i].k % O_N]) + "(" + std::to_string(ops[i].a) + ")");
   return s + "],\"trace\":" + jstr(TRACE) + "}";
 }
@@ -116,10 +117,15 @@ static bool LEAKCHK = false;
 static std::vector<std::vector<Op>> BATCH;
 static const size_t BATCH_N = 256;
 static bool g_single = false;  // replay mode: check after the one sequence
+static std::string g_self, g_tmp;
+// the leak check reports every block leaked so far, so the culprit is searched in fresh processes: each sequence of the
+// batch is replayed alone (./self --replay), the first one that leaks there is blamed
 static std::string leak_culprit() {
   for (auto &ops : BATCH) {
-    run_seq(ops); if (!__lsan_do_recoverable_leak_check()) continue;
-    run_seq(ops); if (__lsan_do_recoverable_leak_check()) { static std::vector<Op> keep; keep = ops; CUR = &keep; return "leak-after-sequence"; }
+    std::string f = g_tmp + ".culprit.json"; FILE *o = fopen(f.c_str(), "w"); if (!o) break; std::string js = case_json(ops); fputs(js.c_str(), o); fclose(o);
+    std::string cmd = g_self + " --replay " + f + " --out " + f + ".out >/dev/null 2>&1"; int rc = system(cmd.c_str());
+    unlink(f.c_str()); unlink((f + ".out").c_str()); unlink((f + ".out.fp").c_str());
+    if (WIFEXITED(rc) && WEXITSTATUS(rc) == 3) { static std::vector<Op> keep; keep = ops; CUR = &keep; return "leak-after-sequence"; }
   }
   return "";
 }
@@ -143,15 +149,18 @@ static void flush_batch() {
 }
 
 int main(int argc, char **argv) {
-  Args a = parse_args(argc, argv);
+  Args a = parse_args(argc, argv); g_self = argv[0]; g_tmp = a.out.empty() ? std::string("/tmp/c16-") + std::to_string(getpid()) : a.out;
   { KeySpec ec = load_fixture("ec_p256"); EC_JWK_X = b64u_enc(pkey_bn(ec.pkey, OSSL_PKEY_PARAM_EC_PUB_X, 32)); EC_JWK_Y = b64u_enc(pkey_bn(ec.pkey, OSSL_PKEY_PARAM_EC_PUB_Y, 32)); EVP_PKEY_free(ec.pkey); }
   cur_case() = [] { return CUR ? case_json(*CUR) : std::string("{}"); };
   Stats &st = stats();
+  // keys are parsed by the OpenSSL code under either provider, but they are released through the ACTIVE provider: odd workers run under GnuTLS
+  { int prov = a.kv.count("prov") ? atoi(a.kv["prov"].c_str()) : (a.worker & 1); set_provider(prov); st.extra["provider_of_worker0"] = jstr(prov_name(a.worker & 1)); st.cls(std::string("worker-under-") + prov_name(prov)); }
   const char *ao = getenv("ASAN_OPTIONS"); LEAKCHK = ao && strstr(ao, "detect_leaks=1");
   // warm up one-time allocations of the crypto library so they are not attributed to a sequence
   { std::vector<Op> w = {{L_EC, 0}, {L_GOOD, 1}, {L_NONJSON, 2}}; run_seq(w); if (LEAKCHK) __lsan_do_recoverable_leak_check(); }
   if (!a.replay.empty()) {
     J j = J::parse(read_file(a.replay)); if (!j) return 2;
+    { const char *pn = json_string_value(json_object_get(j.p, "provider")); if (pn) jwt_set_crypto_ops(pn); }
     std::vector<Op> ops; size_t i; json_t *e; json_array_foreach(json_object_get(j.p, "ops"), i, e) ops.push_back({(int)json_integer_value(json_array_get(e, 0)), (int)json_integer_value(json_array_get(e, 1))});
     g_single = true; std::string why; bool ok = one(ops, false, &why); if (!ok) fprintf(stderr, "replay: %s | %s\n", why.c_str(), TRACE.c_str());
     return ok ? 0 : 3;
